@@ -298,6 +298,51 @@ def gen_graph(rng, nmax=10, cyclic=False, pools=True, validations=True, phony=Tr
     return "\n".join(lines) + "\n", {"builds": builds, "sources": sources, "pools": pool_decl, "all_outs": all_outs}
 
 
+def gen_pool_stress(rng, **kw):
+    """gates -> pool members: members become ready at different moments of the build, some of them up to date, while
+    other members of the same bounded pool run or wait"""
+    ngates = rng.randint(2, 3)
+    nmem = rng.randint(4, 8)
+    pools = [("p%d" % i, rng.choice([1, 1, 2])) for i in range(rng.randint(1, 2))]
+    lines = ["rule r", "  command = cmd $out $opts"]
+    for n_, d_ in pools:
+        lines += ["pool %s" % n_, "  depth = %d" % d_]
+    for g in range(ngates):
+        lines.append("build g%d: r gs%d" % (g, g))
+    members = []
+    for m in range(nmem):
+        g = rng.randrange(ngates)
+        oo = rng.random() < 0.7
+        pool = rng.choice(pools)[0] if rng.random() < 0.85 else None
+        phony = rng.random() < 0.1
+        lines.append("build m%d: %s ms%d %s g%d" % (m, "phony" if phony else "r", m, "||" if oo else "", g))
+        if pool:
+            lines.append("  pool = %s" % pool)
+        members.append("m%d" % m)
+    text = "\n".join(lines) + "\n"
+    steps = ["file %s %s" % (hx("build.ninja"), hx(text))]
+    for g in range(ngates):
+        steps.append("file %s %s" % (hx("gs%d" % g), hx("v0")))
+    for m in range(nmem):
+        steps.append("file %s %s" % (hx("ms%d" % m), hx("v0")))
+    invs = []
+    j = rng.choice([2, 3, 4])
+    steps.append(inv_cmd(j, None, False, [], gen_script(rng, rng.randint(0, 10), fail_rate=0)))
+    invs.append({"j": j, "k": None, "adopt": False, "targets": []})
+    for r in range(rng.randint(1, 2)):
+        for g in range(ngates):
+            if rng.random() < 0.7:
+                steps.append("touch %s" % hx("gs%d" % g))
+        for m in members:
+            if rng.random() < 0.4:
+                steps.append("del %s" % hx(m))
+        j = rng.choice([2, 3, 4])
+        k = rng.choice([None, None, 2])
+        steps.append(inv_cmd(j, k, False, [], gen_script(rng, rng.randint(4, 16), fail_rate=rng.choice([0, 0, 0.15]))))
+        invs.append({"j": j, "k": k, "adopt": False, "targets": []})
+    return "\n".join(steps), invs, {"pools": pools}
+
+
 def gen_script(rng, n, fail_rate=0.15, interrupt_rate=0.01):
     s = []
     for _ in range(n):
@@ -347,12 +392,14 @@ def gen_sched_scenario(rng, **kw):
 
 
 def gen_sched_or_regen(rng, **kw):
-    """mostly scheduler scenarios; every fourth one a history whose manifest is regenerated (and reloaded) mid-invocation,
+    """mostly scheduler scenarios; some pool-stress histories; every fourth one a history whose manifest is regenerated (and reloaded) mid-invocation,
     with pools, defaults, -f spellings and structural edits (from world.gen_history)"""
     if rng.random() < 0.25:
         import world
         steps, invs, info = world.gen_history(rng, with_regen=rng.choice([True, True, "include"]), with_pools=True, nmax=7)
         return "\n".join(steps), [{k: v for k, v in m.items() if k != "files"} for m in invs], info
+    if rng.random() < 0.3:
+        return gen_pool_stress(rng)
     return gen_sched_scenario(rng, **kw)
 
 
